@@ -19,10 +19,15 @@ Violation keys: `<FRAME>:v2.4:roundtrip`, `<FRAME>:v2.3:roundtrip`, `<FRAME>:tra
 `<FRAME>:v2.x:independent-decoder`, `<FRAME>:unsynchronised-input`, `<FRAME>:data-length-input`,
 `<FRAME>:unsynch+data-length-input`, `<FRAME>:compressed-input`, `<FRAME>:compressed+unsynch-input`,
 `<FRAME>:v2.3-compressed-input`, `<FRAME>:v2.3-tag-unsynchronised-input`, `<FRAME>:v2.2-input`,
-`<FRAME>:negative-count-…`, `determine_bpi`, and for the value classes this check singles out because
-they are lost by design of the code: `<FRAME>:v2.3:zero-tail` (bytes after a text field that are all
-NUL are dropped when a v2.3 tag is read), `<FRAME>:mixed-width` (RVAD/RVA values of different byte
-widths), `<FRAME>:…:empty-list` is NOT a key: empty lists are degenerate and only counted.
+`<FRAME>:tag+frame-unsynchronised-input`, `<FRAME>:negative-count-hangs|-not-rejected|-raises-<Exc>`,
+`<FRAME>:construct`, `<FRAME>:v2.x:save`, `<FRAME>:v2.x:not-a-valid-tag`, `mixed-tag:v2.x:roundtrip`,
+`determine_bpi` (DESIGN §6 F6), and for two value classes that this check singles out so that they do
+not hide other round-trip failures of the same frame: `<FRAME>:v2.3:zero-tail` (a non-empty value made
+only of NUL bytes after a text field is dropped when a v2.3 tag is read) and `<FRAME>:mixed-width`
+(RVAD/RVA values of different byte widths).  Degenerate values (empty lists, a frame whose trailing
+texts are all empty under v2.3) are counted in the histogram, not reported.
+
+Until Driver/Main.lean dispatches `id3spec`, a scratch driver can be named with VERIF_C12_DRIVER.
 """
 import io, os, struct, zlib, decimal, subprocess, collections
 from vcheck import hx, unhx, parse_fields
@@ -667,6 +672,11 @@ class Runner:
                 vals = list(parts[i][2])
                 if len(vals) > 1 and all(x == "" for x in vals[1:] if isinstance(x, str)) and isinstance(vals[-1], str) and vals[-1] == "":
                     res = res or "degenerate"
+            if type(s) is S.ID3FramesSpec:
+                for sub in parts[i][2].values():
+                    r = self.zero_tail(sub, None, version)
+                    if r == "zero-tail" or (r and res is None):
+                        res = r
         return res
 
     def degenerate(self, fr):
@@ -738,6 +748,8 @@ class Runner:
                 st, got = self.load_one(data)
                 ctx.hist["load:%s:%s" % (tagname, st)] += 1
                 key = "%s:%s:roundtrip" % (name, tagname) if klass is None else "%s:%s" % (name, klass)
+                if klass is not None:
+                    case = dict(case, klass=klass)      # lets one known_findings entry cover the class for every frame
                 if st != "ok":
                     ctx.violation(key, "reload of the saved tag: %s %r" % (st, got), case)
                 else:
@@ -829,6 +841,8 @@ class Runner:
             ctx.case(key=(name, enc, v, label), nontrivial=nontrivial)
             ctx.hist["framing:" + label] += 1
             case = {"frame": name, "repr": repr(fr)[:400], "enc": enc, "variant": v, "framing": label, "tag": hx(data[:400])}
+            if name in ("CHAP", "CTOC") and label in ("tag+frame-unsynchronised-input", "v2.3-tag-unsynchronised-input"):
+                case["klass"] = "nested-double-unsynch"
             if st != "ok":
                 ctx.violation("%s:%s" % (name, label), "re-framed input: %s %r" % (st, got), case)
                 continue
@@ -898,16 +912,15 @@ class Runner:
         return orders
 
     def has_nested_dups(self, fr):
+        """two nested frames of the same class at some level: their wire order cannot be told from the ids"""
         S = self.S
         for s, val in frame_vals(fr):
             if type(s) is S.ID3FramesSpec:
                 names = [type(f).__name__ for f in val.values()]
                 if len(names) != len(set(names)):
                     return True
-                for f in val.values():
-                    if self.has_nested_dups(f) or type(f).__name__ in ("CHAP", "CTOC") and any(
-                            type(x).__name__ in ("CHAP", "CTOC") for x in []):
-                        return True
+                if any(self.has_nested_dups(f) for f in val.values()):
+                    return True
         return False
 
     def queue(self, line, what, case, expect):
@@ -1085,7 +1098,7 @@ class Runner:
             kind, tag = timed(lambda: self.load(data), 5)
             ctx.case(key=("determine_bpi", pad0), nontrivial=True, modelled=True,
                      sample={"case": "determine_bpi", "frames": "PRIV(198 bytes) + PRIV(embedded TIT2 chain)"})
-            case = {"frames": [repr(a)[:80], repr(b)[:120]], "padding0": pad0, "tag": hx(data[:64])}
+            case = {"frames": [repr(a)[:80], repr(b)[:120]], "padding0": pad0, "tag": hx(data[:64]), "klass": "determine_bpi"}
             ok = kind == "ok" and sorted((k, f.data) for k, f in tag.items() if hasattr(f, "data")) == sorted(
                 [(a.HashKey, a.data), (b.HashKey, b.data)]) and len(tag) == 2
             ctx.hist["determine_bpi:" + ("ok" if ok else "lost")] += 1
@@ -1111,7 +1124,7 @@ class Runner:
                 data = self.save([fr], version, None)
                 st, got = self.load_one(data)
                 self.ctx.case(key=(name, "zero-tail", version), nontrivial=True)
-                case = {"frame": name, "repr": repr(fr), "version": version}
+                case = {"frame": name, "repr": repr(fr), "version": version, "klass": "v2.3:zero-tail"}
                 diffs = self.oracle.frame_diff(fr, got) if st == "ok" else [("*", st)]
                 self.ctx.hist["zero-tail:v2.%d:%s" % (version, "equal" if not diffs else "differs")] += 1
                 if diffs:
@@ -1144,7 +1157,7 @@ class Runner:
                 if label.startswith("v2.3"):
                     st0, plain = st3, plain3
                 self.ctx.case(key=(name, "nested-unsynch", label), nontrivial=True)
-                case = {"frame": name, "repr": repr(fr), "framing": label, "tag": hx(tag)}
+                case = {"frame": name, "repr": repr(fr), "framing": label, "tag": hx(tag), "klass": "nested-double-unsynch"}
                 diffs = self.oracle.frame_diff(plain, got, exact=True) if (st == "ok" and st0 == "ok") else [("*", (st0, st))]
                 self.ctx.hist["nested-unsynch:%s:%s" % (label, "equal" if not diffs else "differs")] += 1
                 if diffs:
